@@ -115,6 +115,19 @@ pub fn config(_args: &[String]) -> Result<Value> {
                                 if s.iter().any(|x| x.starts_with("custom:.debug")) && !gen_dwarf { return Ok(Some("DWARF section carried over although DWARF generation is off".into())); }
                                 if with_dwarf && gen_dwarf && !(has("custom:.debug_info") && has("custom:.debug_line")) { return Ok(Some("DWARF generation is on and the input has DWARF, but the output has no .debug_info / .debug_line".into())); }
                                 if !with_dwarf && s.iter().any(|x| x.starts_with("custom:.debug")) { return Ok(Some("DWARF sections appear although the input has none".into())); }
+                                if with_dwarf && gen_dwarf {
+                                    // the same switch values set in the other order give the same DWARF (what is written depends on the values,
+                                    // not on the order of the setter calls)
+                                    let mut cfg_b = walrus::ModuleConfig::new();
+                                    cfg_b.generate_name_section(gen_names).generate_producers_section(gen_prod).generate_dwarf(gen_dwarf).preserve_code_transform(pct);
+                                    let out_b = cfg_b.parse(&w2)?.emit_wasm();
+                                    let dbg = |w: &[u8]| -> Result<Vec<(String, Vec<u8>)>> {
+                                        let mut v = vec![];
+                                        for p in wasmparser::Parser::new(0).parse_all(w) { if let wasmparser::Payload::CustomSection(c) = p? { if c.name().starts_with(".debug") { v.push((c.name().to_string(), c.data().to_vec())); } } }
+                                        Ok(v)
+                                    };
+                                    if dbg(&out)? != dbg(&out_b)? { return Ok(Some("generate_dwarf(true) followed by preserve_code_transform(..) writes different DWARF than the same values set in the other order".into())); }
+                                }
                                 for n in ["type", "function", "export", "code", "custom:other"] { if !has(n) { return Ok(Some(format!("section {n} missing"))); } }
                                 if s.iter().filter(|x| *x == "custom:other").count() != 1 { return Ok(Some("custom section `other` not emitted exactly once".into())); }
                                 if gen_prod {
